@@ -186,8 +186,8 @@ func fieldSel(base string, p []int) string {
 }
 
 var faces = map[string][]string{
-	"M": {"M", "String", "Len", "Less", "Swap", "Acc"},
-	"N": {"N", "Error", "Write", "Bcc"},
+	"M": {"M", "String", "Len", "Less", "Swap", "Acc", "Read", "ReadFrom"},
+	"N": {"N", "Error", "Write", "Bcc", "WriteTo"},
 }
 
 func goType(t string) string {
@@ -345,6 +345,10 @@ func (f *form) body(id string) string {
 		return pre + "lg = \"\"; mut(&v); sort.Sort(" + operand(f.D) + "); " + out(`"ok"`)
 	case "fprint":
 		return pre + "lg = \"\"; mut(&v); fmt.Fprint(" + operand(f.D) + ", \"x\"); " + out(`"ok"`)
+	case "copysrc": // bytes.Buffer has ReadFrom: without WriteTo in the source, Read is called once (0, io.EOF)
+		return pre + "lg = \"\"; mut(&v); io.Copy(&bytes.Buffer{}, " + operand(f.D) + "); " + out(`"ok"`)
+	case "copydst": // io.LimitedReader has no WriteTo: without ReadFrom in the destination, Write is called once
+		return pre + "lg = \"\"; mut(&v); io.Copy(" + operand(f.D) + ", io.LimitReader(strings.NewReader(\"x\"), 1)); " + out(`"ok"`)
 	case "sprinti":
 		return pre + "lg = \"\"; mut(&v); " + capture("i", f.S, f.D) + "; aux = fmt.Sprint(i); " + out(`"ok"`)
 	case "nest", "mvpair", "mvcall":
@@ -451,8 +455,8 @@ func render(h *hier, forms []form, sel []int) *program {
 		b.WriteString(s)
 		line += strings.Count(s, "\n")
 	}
-	w("package main\n\nimport (\n\t\"fmt\"\n\t\"io\"\n\t\"sort\"\n\t\"strconv\"\n)\n\n")
-	w("var _ io.Writer\nvar _ sort.Interface\nvar _ = strconv.Itoa\n\nvar lg string\n\n")
+	w("package main\n\nimport (\n\t\"bytes\"\n\t\"fmt\"\n\t\"io\"\n\t\"sort\"\n\t\"strconv\"\n\t\"strings\"\n)\n\n")
+	w("var _ io.Writer\nvar _ sort.Interface\nvar _ = strconv.Itoa\nvar _ bytes.Buffer\nvar _ = strings.NewReader\n\nvar lg string\n\n")
 	w("func note(tag string, c int) { lg += tag + \":\" + strconv.Itoa(c) + \";\" }\n\n")
 	w("type IM interface{ M() }\ntype IN interface{ N() }\ntype IMN interface {\n\tIM\n\tN()\n}\n")
 	w("type IA interface{ Acc(int) int }\ntype IB interface{ Bcc(int) int }\n\n")
@@ -494,6 +498,12 @@ func render(h *hier, forms []form, sel []int) *program {
 					w(fmt.Sprintf("func %s Swap(i, j int) { %s }\n", rc, body))
 				case "Write":
 					w(fmt.Sprintf("func %s Write(b []byte) (int, error) { %s; return len(b), nil }\n", rc, body))
+				case "Read":
+					w(fmt.Sprintf("func %s Read(b []byte) (int, error) { %s; return 0, io.EOF }\n", rc, body))
+				case "ReadFrom":
+					w(fmt.Sprintf("func %s ReadFrom(x io.Reader) (int64, error) { %s; return 0, nil }\n", rc, body))
+				case "WriteTo":
+					w(fmt.Sprintf("func %s WriteTo(x io.Writer) (int64, error) { %s; return 0, nil }\n", rc, body))
 				case "Acc", "Bcc":
 					w(fmt.Sprintf("func %s %s(x int) int { %s; return x + 1 }\n", rc, face, body))
 				}
